@@ -426,6 +426,10 @@ class Ovld:
 
     def lock(self):
         self._locked = True
+        # Everything this ovld is assembled from must stay as it is, too
+        for mixin in self.mixins:
+            if not mixin._locked:
+                mixin.lock()
 
     def _attempt_modify(self):
         if self._locked:
